@@ -321,7 +321,7 @@ static const char* corpus[] = {
   "<!-->",
   "<?xml",
   "<?xml?",
-  "<??><a/>",
+  "<?" "?><a/>",
   "<a",
   "<",
   "</a>",
